@@ -7,7 +7,7 @@ def rapid(sub, quick, thorough, shards=8, **kw):
 
 PROPS = {
     "C01": {"jobs": [
-        rapid("C01a", 800, 4000, shrinktime="15s", race_shards=1),
+        rapid("C01a", 800, 3000, shrinktime="15s", race_shards=1, timeout_thorough=5400),
         {"sub": "C01f", "kind": "fuzz", "run": "FuzzC01Datagram", "tiers": ["thorough"], "quick": 0, "thorough": 90},
     ]},
     "C02": {"jobs": [
@@ -78,6 +78,7 @@ PROPS = {
     ]},
     "C20": {"jobs": [
         rapid("C20a", 150, 800, shrinktime="15s", shards=8),
+        rapid("C20b", 120, 800, shards=2),
     ]},
     "C15": {"jobs": [
         rapid("C15a", 6000, 30000),
